@@ -46,8 +46,16 @@ pub fn meta() -> PropMeta {
   }
 }
 
-/// Checks the views of one BMOC; returns its decoded cells.
+/// Checks the views of one BMOC; returns its decoded cells.  A panic of one of the views is a
+/// violation (the views of a BMOC handed to the user must be usable).
 pub fn check_views(what: &str, b: &BMOC) -> Result<Vec<MCell>, Violation> {
+  match catch(|| check_views_inner(what, b)) {
+    Ok(r) => r,
+    Err(p) => Err(Violation::new("views", "panic", format!("{}: a view (iterators / deep_size / to_ranges / to_flat_array) panicked: {}", what, p))),
+  }
+}
+
+fn check_views_inner(what: &str, b: &BMOC) -> Result<Vec<MCell>, Violation> {
   let dm = b.get_depth_max();
   let cells = bc::model_cells("well_formed", what, b)?;
   let raw: Vec<u64> = b.entries.iter().copied().collect();
